@@ -10,7 +10,7 @@ import (
 
 func init() {
 	register("C18", propMeta{
-		Explanation: "Decides, on every path of the ETH client update (CheckHeaderAndUpdateState -> checkValidity -> verifyHeader -> verifyCascadingFields -> Ethash.VerifySeal): a header already indexed under (its hash, its height) is refused; the parent is looked up under (header.ParentHash, height-1) and must exist, decode, and hash to header.ParentHash; header.Time <= (ctx.BlockTime()+allowedFutureBlockTime) in Unix seconds, with the constant read from the source, and parent.Time < header.Time; VerifyEip1559Header(parent, header) succeeded (inside: gas-limit window and minimum, base fee present and equal to CalcBaseFee(parent)); the difficulty equals the calculator's result for (header.Time, parent); the seal check succeeded on the header itself (inside: difficulty positive, mix digest equals the computed digest, result <= 2^256/difficulty); checkValidity's success dominates every index write, pruning delete, chain rewrite and the success return; after acceptance the returned client state's latest header is the accepted header on every success path and the consensus state is {header time, height, root}, indexed under the header's own hash/height/root. NOT decided: the single-chain invariant after a reorganisation of any depth (RestrictChain is loop arithmetic over heights; reading suggests its rewrite loop looks headers up one height too low, but showing that needs value reasoning outside this family), the 'if' direction.",
+		Explanation: "Decides, on every path of the ETH client update (CheckHeaderAndUpdateState -> checkValidity -> verifyHeader -> verifyCascadingFields -> Ethash.VerifySeal): a header already indexed under (its hash, its height) is refused; the parent is looked up under (header.ParentHash, height-1) and must exist, decode, and hash to header.ParentHash; header.Time <= (ctx.BlockTime()+allowedFutureBlockTime) in Unix seconds, with the constant read from the source, and parent.Time < header.Time; VerifyEip1559Header(parent, header) succeeded (inside: gas-limit window and minimum, base fee present and equal to CalcBaseFee(parent)); the difficulty equals the calculator's result for (header.Time, parent); the seal check succeeded on the header itself (inside: difficulty positive, mix digest equals the computed digest, result <= 2^256/difficulty); checkValidity's success dominates every index write, pruning delete, chain rewrite and the success return; after acceptance the returned client state's latest header is the accepted header on every success path and the consensus state is {header time, height, root}, indexed under the header's own hash/height/root. ClientKeeper.UpdateClient (shared by all client types) stores the returned client and consensus state on every accepting path. NOT decided either: the arithmetic inside CalcBaseFee and the difficulty calculators (values of in-place big.Int operations; a seeded change that loses the max(delta,1) clamp is not seen). NOT decided: the single-chain invariant after a reorganisation of any depth (RestrictChain is loop arithmetic over heights; reading suggests its rewrite loop looks headers up one height too low, but showing that needs value reasoning outside this family), the 'if' direction.",
 		Assumptions: []string{"the vendored ethash hashimoto implementation is correct"},
 		Trusted:     commonTrusted,
 	}, ruleC18)
